@@ -1,13 +1,24 @@
 package main
 
-// The real IP listener (server.StartIPServer with a real ntske.Provider) on a
-// loopback address of this process.  Honest NTS requests are built exactly as
-// the client does (cookie sealed under provider.Current(), NewRequestPacket,
-// EncodePacket) and delivered unchanged and mutated; "no reply" is decided by a
-// plain 48-byte sentinel request sent afterwards from the same socket (the
-// listener goroutine that owns this 4-tuple answers in order).
+// The real listeners (server.StartIPServer and server.StartSCIONServer with one
+// real ntske.Provider) on a loopback address of this process.  Honest NTS
+// requests are built exactly as the client does (cookie sealed under a key of
+// the provider, NewRequestPacket, EncodePacket) and delivered unchanged and
+// mutated, to the IP listener as UDP payload (kind srv.ip) and to the SCION
+// listener inside a SCION/UDP packet (kind srv.scion); "no reply" is decided by
+// a plain 48-byte sentinel request sent afterwards from the same socket (the
+// listener goroutine that owns this 4-tuple answers in order).  A sentinel that
+// goes unanswered is a failing case and ends the run with a non-zero status.
+//
+// Every reply is verified as the client does (DecodePacket + ProcessResponse
+// under the session's S2C key with the identifier of the request); every
+// cookie it carries is opened with the provider's key (Get + Decrypt) and must
+// name the provider's current key and yield exactly the session's algorithm and
+// keys; after an accepted honest request a follow-up request that uses one of
+// the re-issued cookies is sent and must be accepted as well.
 
 import (
+	"bytes"
 	"context"
 	"encoding/binary"
 	"fmt"
@@ -15,6 +26,11 @@ import (
 	"net"
 	"os"
 	"time"
+
+	"github.com/google/gopacket"
+	"github.com/scionproto/scion/pkg/addr"
+	"github.com/scionproto/scion/pkg/slayers"
+	"github.com/scionproto/scion/pkg/slayers/path/empty"
 
 	"example.com/scion-time/core/server"
 	"example.com/scion-time/core/timebase"
@@ -35,59 +51,131 @@ func (sysClock) Sleep(d time.Duration)                            { time.Sleep(d
 
 const (
 	lsnPort      = 21010
+	scionPort    = 21011
+	scionUDPSrc  = 40123
 	sentinelSecs = 0x5E471E10
+	srvIA        = 0x0001ff0000000112
+	cliIA        = 0x0001ff0000000111
 )
 
 type lsn struct {
-	provider *ntske.Provider
-	dst      *net.UDPAddr
-	conn     *net.UDPConn
-	seq      uint32
-	lost     bool
+	kind  string // "srv.ip" or "srv.scion"
+	scion bool
+	dst   *net.UDPAddr
+	conn  *net.UDPConn
+	srcIP net.IP
+	dstIP net.IP
+	seq   uint32
+	lost  bool
 }
 
-var theLsn *lsn
+var (
+	theProvider *ntske.Provider
+	theLsns     []*lsn
+	// a sentinel went unanswered somewhere: the run fails (see main)
+	sentinelLost bool
+)
 
-func getLsn() *lsn {
-	if theLsn != nil {
-		return theLsn
+func getLsns() []*lsn {
+	if theLsns != nil {
+		return theLsns
 	}
-	l := &lsn{}
 	timebase.RegisterClock(sysClock{})
 	setTape()
-	l.provider = ntske.NewProvider()
+	theProvider = ntske.NewProvider()
 	pid := os.Getpid()
 	ip := net.IPv4(127, 10, byte(pid>>8), byte(pid))
-	l.dst = &net.UDPAddr{IP: ip, Port: lsnPort}
-	server.StartIPServer(context.Background(), slog.New(slog.DiscardHandler), l.dst, 0, l.provider)
-	c, err := net.ListenUDP("udp4", &net.UDPAddr{IP: ip, Port: 0})
+	log := slog.New(slog.DiscardHandler)
+	ipDst := &net.UDPAddr{IP: ip, Port: lsnPort}
+	server.StartIPServer(context.Background(), log, ipDst, 0, theProvider)
+	scDst := &net.UDPAddr{IP: ip, Port: scionPort}
+	server.StartSCIONServer(context.Background(), log, "" /* no daemon */, scDst, 0, theProvider)
+	for _, sc := range []bool{false, true} {
+		c, err := net.ListenUDP("udp4", &net.UDPAddr{IP: ip, Port: 0})
+		if err != nil {
+			panic(err)
+		}
+		c.SetReadBuffer(1 << 20)
+		l := &lsn{kind: "srv.ip", dst: ipDst, conn: c, srcIP: ip.To4(), dstIP: ip.To4()}
+		if sc {
+			l.kind, l.scion, l.dst = "srv.scion", true, scDst
+		}
+		theLsns = append(theLsns, l)
+	}
+	return theLsns
+}
+
+// ---- SCION/UDP encapsulation (empty path: client and server in one AS) ----
+
+func (l *lsn) wrap(payload []byte) []byte {
+	if !l.scion {
+		return payload
+	}
+	var scn slayers.SCION
+	scn.FlowID = 1
+	scn.NextHdr = slayers.L4UDP
+	scn.PathType = empty.PathType
+	scn.Path = empty.Path{}
+	scn.DstIA, scn.SrcIA = addr.IA(srvIA), addr.IA(cliIA)
+	scn.DstAddrType, scn.SrcAddrType = slayers.T4Ip, slayers.T4Ip
+	scn.RawDstAddr, scn.RawSrcAddr = []byte(l.dstIP), []byte(l.srcIP)
+	var udp slayers.UDP
+	udp.SrcPort, udp.DstPort = scionUDPSrc, scionPort
+	udp.SetNetworkLayerForChecksum(&scn)
+	sb := gopacket.NewSerializeBuffer()
+	err := gopacket.SerializeLayers(sb, gopacket.SerializeOptions{ComputeChecksums: true, FixLengths: true},
+		&scn, &udp, gopacket.Payload(payload))
 	if err != nil {
 		panic(err)
 	}
-	c.SetReadBuffer(1 << 20)
-	l.conn = c
-	theLsn = l
-	return l
+	return append([]byte(nil), sb.Bytes()...)
 }
 
-// probe sends pkt, then a sentinel, and returns the datagrams received before
-// the sentinel's answer.
-func (l *lsn) probe(pkt []byte) (replies [][]byte) {
-	if l.lost {
-		return nil
+// unwrap returns the NTP/NTS payload of a datagram received from the listener;
+// for SCION the reply must be a SCION/UDP packet back to the requester.
+func (l *lsn) unwrap(d []byte) (payload []byte, ok bool) {
+	if !l.scion {
+		return d, true
 	}
+	defer func() {
+		if recover() != nil {
+			payload, ok = nil, false
+		}
+	}()
+	var scn slayers.SCION
+	if err := scn.DecodeFromBytes(d, gopacket.NilDecodeFeedback); err != nil {
+		return nil, false
+	}
+	if scn.NextHdr != slayers.L4UDP || scn.DstIA != addr.IA(cliIA) || scn.SrcIA != addr.IA(srvIA) ||
+		!bytes.Equal(scn.RawDstAddr, l.srcIP) || !bytes.Equal(scn.RawSrcAddr, l.dstIP) {
+		return nil, false
+	}
+	var udp slayers.UDP
+	if err := udp.DecodeFromBytes(scn.Payload, gopacket.NilDecodeFeedback); err != nil {
+		return nil, false
+	}
+	if udp.SrcPort != scionPort || udp.DstPort != scionUDPSrc {
+		return nil, false
+	}
+	return append([]byte(nil), udp.Payload...), true
+}
+
+// probe sends pkt, then a sentinel, and returns the payloads of the datagrams
+// received before the sentinel's answer; ok = false: the sentinel was lost.
+func (l *lsn) probe(pkt []byte) (replies [][]byte, ok bool) {
 	l.seq++
 	s := make([]byte, 48)
 	s[0] = 4<<3 | 3
 	binary.BigEndian.PutUint32(s[40:], sentinelSecs)
 	binary.BigEndian.PutUint32(s[44:], l.seq)
-	if _, err := l.conn.WriteToUDP(pkt, l.dst); err != nil {
+	if _, err := l.conn.WriteToUDP(l.wrap(pkt), l.dst); err != nil {
 		panic(err)
 	}
+	ws := l.wrap(s)
 	buf := make([]byte, 4096)
 	deadline := time.Now().Add(30 * time.Second)
 	for attempt := 0; attempt < 3; attempt++ {
-		if _, err := l.conn.WriteToUDP(s, l.dst); err != nil {
+		if _, err := l.conn.WriteToUDP(ws, l.dst); err != nil {
 			panic(err)
 		}
 		l.conn.SetReadDeadline(time.Now().Add(10 * time.Second))
@@ -96,11 +184,16 @@ func (l *lsn) probe(pkt []byte) (replies [][]byte) {
 			if err != nil {
 				break
 			}
-			d := append([]byte(nil), buf[:n]...)
-			if n == 48 && binary.BigEndian.Uint32(d[24:]) == sentinelSecs && binary.BigEndian.Uint32(d[28:]) == l.seq {
-				return replies
+			d, good := l.unwrap(append([]byte(nil), buf[:n]...))
+			if !good {
+				// not a well-formed reply: counts as a reply that cannot verify
+				replies = append(replies, []byte{})
+				continue
 			}
-			if n == 48 && binary.BigEndian.Uint32(d[24:]) == sentinelSecs {
+			if len(d) == 48 && binary.BigEndian.Uint32(d[24:]) == sentinelSecs && binary.BigEndian.Uint32(d[28:]) == l.seq {
+				return replies, true
+			}
+			if len(d) == 48 && binary.BigEndian.Uint32(d[24:]) == sentinelSecs {
 				continue // answer to an earlier (repeated) sentinel
 			}
 			replies = append(replies, d)
@@ -109,16 +202,52 @@ func (l *lsn) probe(pkt []byte) (replies [][]byte) {
 			break
 		}
 	}
-	l.lost = true
-	fmt.Println("NOTE c10: a sentinel request to the IP listener went unanswered; listener cases stopped")
-	return replies
+	return replies, false
 }
 
-// srvCase delivers b to the listener and records the case.  h is the honest
-// request b was derived from; s its session (S2C key and identifier verify the reply).
-func (l *lsn) srvCase(tags string, hs []*honest, b []byte, s2c []byte) {
-	if l.lost {
-		return
+func providerKeys() string {
+	cur := theProvider.Current()
+	var ks []string
+	for id := 1; id <= cur.ID; id++ {
+		if k, ok := theProvider.Get(id); ok {
+			ks = append(ks, lib.L(lib.I(int64(k.ID)), lib.B(k.Value)))
+		}
+	}
+	return lib.L(ks...)
+}
+
+// reissuedOK opens every cookie of an accepted reply with the provider's key:
+// each must name the provider's current key, open under it and yield exactly
+// the session's algorithm and keys.
+func reissuedOK(cookies [][]byte, s *session) bool {
+	if len(cookies) == 0 {
+		return false
+	}
+	cur := theProvider.Current()
+	for _, cb := range cookies {
+		var ec ntske.EncryptedServerCookie
+		if ec.Decode(cb) != nil || int(ec.ID) != cur.ID {
+			return false
+		}
+		key, ok := theProvider.Get(int(ec.ID))
+		if !ok {
+			return false
+		}
+		sc, err := ec.Decrypt(key.Value)
+		if err != nil || sc.Algo != s.algo || !bytes.Equal(sc.S2C, s.s2c) || !bytes.Equal(sc.C2S, s.c2s) {
+			return false
+		}
+	}
+	return true
+}
+
+// srvCase delivers b to the listener and records the case.  hs are the honest
+// requests in circulation; s is the session whose S2C key and identifier verify
+// the reply.  It returns the cookies of a reply that verified.
+func (l *lsn) srvCase(tags string, hs []*honest, b []byte, s *session) (reissued [][]byte) {
+	if l.lost || len(b) <= 48 {
+		// 48 bytes or fewer: not an NTS packet (plain NTP is answered unauthenticated; C09)
+		return nil
 	}
 	// AEAD answers for the model, computed through the real decoding steps
 	var ents []string
@@ -136,7 +265,7 @@ func (l *lsn) srvCase(tags string, hs []*honest, b []byte, s2c []byte) {
 		if ec.Decode(cb) != nil {
 			return
 		}
-		key, ok := l.provider.Get(int(ec.ID))
+		key, ok := theProvider.Get(int(ec.ID))
 		if !ok || len(ec.Nonce) != 16 {
 			return
 		}
@@ -150,13 +279,17 @@ func (l *lsn) srvCase(tags string, hs []*honest, b []byte, s2c []byte) {
 			ents = append(ents, openEntry(sc.C2S, pkt.Auth.Nonce, b[:pos], false, pkt.Auth.CipherText))
 		}
 	}()
-	cur := l.provider.Current()
-	keys := lib.L(lib.L(lib.I(int64(cur.ID)), lib.B(cur.Value)))
-	replies := l.probe(b)
-	if l.lost {
-		return
+	keys := providerKeys()
+	args := lib.V(HL(hs), lib.B(b), keys, tab(ents...))
+	replies, ok := l.probe(b)
+	if !ok {
+		// the listener stopped answering: a failing case, and the run fails
+		l.lost, sentinelLost = true, true
+		fmt.Printf("NOTE c10: a sentinel request to the %s listener went unanswered; the case in flight is recorded as failing and the run exits non-zero\n", l.kind)
+		w.Case(l.kind, tags+",lost", args, "-1 0 0")
+		return nil
 	}
-	replied, verified := 0, 0
+	replied, verified, cookiesOK := 0, 0, 0
 	if len(replies) > 0 {
 		replied = 1
 		// the reply must verify at the client: S2C key, identifier of the request
@@ -172,137 +305,175 @@ func (l *lsn) srvCase(tags string, hs []*honest, b []byte, s2c []byte) {
 			var rp nts.Packet
 			var f ntske.Fetcher
 			if len(replies) == 1 && nts.DecodePacket(&rp, replies[0]) == nil &&
-				nts.ProcessResponse(replies[0], s2c, &f, &rp, uid) == nil && len(rp.Cookies) >= 1 {
+				nts.ProcessResponse(replies[0], s.s2c, &f, &rp, uid) == nil && len(rp.Cookies) >= 1 {
 				verified = 1
+				var cs [][]byte
+				for _, c := range rp.Cookies {
+					cs = append(cs, c.Cookie)
+				}
+				// what the client keeps is what the reply carried
+				if st := f.VerifData().Cookie; len(st) == len(cs) && reissuedOK(st, s) {
+					cookiesOK = 1
+					reissued = cs
+				}
 			}
 		}()
 	}
-	w.Case("srv.ip", tags, lib.V(HL(hs), lib.B(b), keys, tab(ents...)), lib.V(lib.I(int64(replied)), lib.I(int64(verified))))
+	w.Case(l.kind, tags, args, lib.V(lib.I(int64(replied)), lib.I(int64(verified)), lib.I(int64(cookiesOK))))
+	return reissued
+}
+
+// lsnRequest builds a request of session x exactly as the client does.
+func lsnRequest(r *lib.Rng, x *session) *honest {
+	uid := r.Bytes(32)
+	setTape(uid)
+	pkt, id := nts.NewRequestPacket(ntske.Data{C2sKey: x.c2s, S2cKey: x.s2c, Cookie: x.pool})
+	setTape()
+	var cs, phs [][]byte
+	for _, c := range pkt.Cookies {
+		cs = append(cs, c.Cookie)
+	}
+	for _, c := range pkt.CookiePlaceholders {
+		phs = append(phs, c.Cookie)
+	}
+	hdr := make([]byte, 48)
+	hdr[0] = 4<<3 | 3
+	copy(hdr[40:], r.Bytes(8))
+	nonce := r.Bytes(16)
+	out, fields, pos, ct := encodeCase("honest", hdr, id, cs, phs, pkt.Auth.Key, pkt.Auth.PlainText, nonce, false)
+	return &honest{b: out, pos: pos, nonce: nonce, ct: ct, key: x.c2s, dir: 0, uid: id, fields: fields}
+}
+
+// honestAndFollowUp sends an honest request of s; when it is answered, a
+// follow-up request that uses one of the re-issued cookies must be answered too.
+func (l *lsn) honestAndFollowUp(r *lib.Rng, tags string, s *session, q *honest, others []*honest) {
+	re := l.srvCase(tags, append([]*honest{q}, others...), q.b, s)
+	if len(re) == 0 {
+		return
+	}
+	f := &session{c2s: s.c2s, s2c: s.s2c, algo: s.algo, pool: [][]byte{re[r.Intn(len(re))]}}
+	fq := lsnRequest(r, f)
+	l.srvCase("nt,honest,complete,followup", append([]*honest{fq}, others...), fq.b, f)
+}
+
+func lsnSession(r *lib.Rng, n int) *session {
+	cur := theProvider.Current()
+	s := &session{master: cur.Value, keyid: cur.ID, c2s: r.Bytes(32), s2c: r.Bytes(32), algo: 15}
+	if r.Intn(4) == 0 {
+		s.c2s, s.s2c = r.Bytes(64), r.Bytes(64)
+	}
+	for i := 0; i < n; i++ {
+		s.pool = append(s.pool, s.freshCookie(r))
+	}
+	return s
 }
 
 func extraCases(r *lib.Rng, thorough bool) {
-	l := getLsn()
+	ls := getLsns()
 	rounds := 2
 	if thorough {
 		rounds = 8
 	}
-	for round := 0; round < rounds && !l.lost; round++ {
-		cur := l.provider.Current()
-		s := &session{master: cur.Value, keyid: cur.ID, c2s: r.Bytes(32), s2c: r.Bytes(32), algo: 15}
-		if r.Intn(4) == 0 {
-			s.c2s, s.s2c = r.Bytes(64), r.Bytes(64)
+	var olds []*session // sessions of earlier rounds: their cookies are sealed under older keys
+	for round := 0; round < rounds; round++ {
+		if round > 0 {
+			// a day later: the provider makes a new current key, the older keys stay valid for 3 days
+			theProvider.VerifAge(25 * time.Hour)
+			theProvider.Current()
 		}
-		n := 1 + r.Intn(8)
-		for i := 0; i < n; i++ {
-			s.pool = append(s.pool, s.freshCookie(r))
-		}
-		// another client of the same server
-		o := &session{master: cur.Value, keyid: cur.ID, c2s: r.Bytes(32), s2c: r.Bytes(32), algo: 15}
-		o.pool = append(o.pool, o.freshCookie(r))
-		mk := func(x *session) *honest {
-			uid := r.Bytes(32)
-			setTape(uid)
-			pkt, id := nts.NewRequestPacket(ntske.Data{C2sKey: x.c2s, S2cKey: x.s2c, Cookie: x.pool})
-			setTape()
-			var cs, phs [][]byte
-			for _, c := range pkt.Cookies {
-				cs = append(cs, c.Cookie)
-			}
-			for _, c := range pkt.CookiePlaceholders {
-				phs = append(phs, c.Cookie)
-			}
-			hdr := make([]byte, 48)
-			hdr[0] = 4<<3 | 3
-			copy(hdr[40:], r.Bytes(8))
-			nonce := r.Bytes(16)
-			out, fields, pos, ct := encodeCase("honest", hdr, id, cs, phs, pkt.Auth.Key, pkt.Auth.PlainText, nonce, false)
-			return &honest{b: out, pos: pos, nonce: nonce, ct: ct, key: x.c2s, dir: 0, uid: id, fields: fields}
-		}
-		q := mk(s)
-		oq := mk(o)
-		hs := []*honest{q, oq}
-		l.srvCase("nt,honest,complete", hs, q.b, s.s2c)
-		l.srvCase("nt,honest,complete", []*honest{oq, q}, oq.b, o.s2c)
-		// every field mutation, sampled bit flips, structure
-		every := 6
-		if thorough {
-			every = 2
-		}
-		for i := 0; i < len(q.b)*8; i++ {
-			if r.Intn(every) != 0 {
-				continue
-			}
-			c := clone(q.b)
-			c[i/8] ^= 1 << (i % 8)
-			l.srvCase(ntTag(q.region(i/8))+",bit", hs, c, s.s2c)
-		}
-		for fi, f := range q.fields {
-			for _, ty := range []uint16{0x104, 0x204, 0x304, 0x404, 0} {
-				if ty != f.typ {
-					l.srvCase("nt,mut,ftype", hs, put16(q.b, f.off, ty), s.s2c)
-				}
-			}
-			for _, ln := range []int{0, 3, 4, f.length - 4, f.length + 4, f.length + 1, 0xffff} {
-				if ln >= 0 && ln != f.length {
-					tg := "nt,mut,flen"
-					if fi == len(q.fields)-1 {
-						tg = "mut,authextlen"
-					}
-					l.srvCase(tg, hs, put16(q.b, f.off+2, uint16(ln)), s.s2c)
-				}
+		for _, l := range ls {
+			if !l.lost {
+				l.round(r, thorough, olds)
 			}
 		}
-		for _, nl := range []int{0, 15, 17, 32} {
-			l.srvCase("nt,mut,noncelen", hs, put16(q.b, q.pos+4, uint16(nl)), s.s2c)
-		}
-		for _, cl := range []int{0, 15, 17, 20, 32} {
-			l.srvCase("nt,mut,ctlen", hs, put16(q.b, q.pos+6, uint16(cl)), s.s2c)
-		}
-		// the cookie of the other client in this client's request, and vice versa: the
-		// authenticator was made with the other C2S key
-		if len(q.fields) >= 2 && len(oq.fields) >= 2 {
-			f, g := q.fields[1], oq.fields[1]
-			if f.length == g.length {
-				c := clone(q.b)
-				copy(c[f.off:f.off+f.length], oq.b[g.off:g.off+g.length])
-				l.srvCase("nt,history,cookieswap", hs, c, s.s2c)
-			}
-		}
-		// authenticated part of one request with the authenticator of the other
-		l.srvCase("nt,history,splice", hs, append(clone(q.b[:q.pos]), oq.b[oq.pos:]...), s.s2c)
-		l.srvCase("nt,history,splice", hs, append(clone(oq.b[:oq.pos]), q.b[q.pos:]...), s.s2c)
-		// key id of the cookie changed (no such key), truncations, trailing bytes
-		c := clone(q.b)
-		c[q.fields[1].off+4+4+1] ^= 0x40
-		l.srvCase("nt,mut,keyid", hs, c, s.s2c)
-		for _, cut := range []int{49, 76, q.pos, q.pos + 27, q.pos + 28, len(q.b) - 1, len(q.b) - 4} {
-			l.srvCase("nt,mut,trunc", hs, clone(q.b[:cut]), s.s2c)
-		}
-		l.srvCase("mut,tail,append", hs, append(clone(q.b), r.Bytes(8)...), s.s2c)
-		// a cookie sealed under a key the server does not have
-		bad := &session{master: r.Bytes(32), keyid: cur.ID, c2s: s.c2s, s2c: s.s2c, algo: 15}
-		bad.pool = append(bad.pool, bad.freshCookie(r))
-		bq := mk(bad)
-		l.srvCase("nt,wrongkey,cookie", []*honest{q}, bq.b, s.s2c)
-		// a well-formed request whose cookie names a key id the server does not have
-		// (sealed under the current key): provider.Get fails, no reply
-		ghost := &session{master: cur.Value, keyid: cur.ID + 7, c2s: r.Bytes(32), s2c: r.Bytes(32), algo: 15}
-		ghost.pool = append(ghost.pool, ghost.freshCookie(r))
-		gq := mk(ghost)
-		l.srvCase("nt,wrongkey,keyid", []*honest{q}, gq.b, ghost.s2c)
-		// a response handed to the server
-		p := s.response(r, q.uid, 1)
-		l.srvCase("nt,history,reflect", []*honest{q, p}, p.b, s.s2c)
+		olds = append(olds, lsnSession(r, 2), lsnSession(r, 1))
 	}
 }
 
+func (l *lsn) round(r *lib.Rng, thorough bool, olds []*session) {
+	cur := theProvider.Current()
+	s := lsnSession(r, 1+r.Intn(8))
+	// another client of the same server
+	o := lsnSession(r, 1)
+	q := lsnRequest(r, s)
+	oq := lsnRequest(r, o)
+	hs := []*honest{q, oq}
+	l.honestAndFollowUp(r, "nt,honest,complete", s, q, []*honest{oq})
+	l.honestAndFollowUp(r, "nt,honest,complete", o, oq, []*honest{q})
+	// clients whose cookies were sealed under an older key of the provider: answered
+	// while that key is valid (with cookies under the current key), not afterwards
+	for _, x := range olds {
+		xq := lsnRequest(r, x)
+		if _, ok := theProvider.Get(x.keyid); ok {
+			l.honestAndFollowUp(r, "nt,honest,complete,oldkey", x, xq, []*honest{q})
+		} else {
+			l.srvCase("nt,wrongkey,expired", []*honest{q}, xq.b, x)
+		}
+	}
+	// sampled bit flips
+	every := 6
+	if thorough {
+		every = 2
+	}
+	for i := 0; i < len(q.b)*8; i++ {
+		if r.Intn(every) != 0 {
+			continue
+		}
+		c := clone(q.b)
+		c[i/8] ^= 1 << (i % 8)
+		l.srvCase(ntTag(q.region(i/8))+",bit", hs, c, s)
+	}
+	// every field type and length, the lengths inside the authenticator, the NTP header,
+	// and the structural changes (fields inserted, deleted, swapped, duplicated, the
+	// authenticator moved or doubled, truncations, trailing data): the same families the
+	// receivers get directly
+	t := target{dir: 0, key: s.c2s, l: l, sess: s}
+	fieldMutations(q, t, r)
+	structural(q, t, r)
+	// the cookie of the other client in this client's request, and vice versa: the
+	// authenticator was made with the other C2S key
+	if len(q.fields) >= 2 && len(oq.fields) >= 2 {
+		f, g := q.fields[1], oq.fields[1]
+		if f.length == g.length {
+			c := clone(q.b)
+			copy(c[f.off:f.off+f.length], oq.b[g.off:g.off+g.length])
+			l.srvCase("nt,history,cookieswap", hs, c, s)
+		}
+	}
+	// authenticated part of one request with the authenticator of the other
+	l.srvCase("nt,history,splice", hs, append(clone(q.b[:q.pos]), oq.b[oq.pos:]...), s)
+	l.srvCase("nt,history,splice", hs, append(clone(oq.b[:oq.pos]), q.b[q.pos:]...), s)
+	// key id of the cookie changed (no such key)
+	c := clone(q.b)
+	c[q.fields[1].off+4+4+1] ^= 0x40
+	l.srvCase("nt,mut,keyid", hs, c, s)
+	// a cookie sealed under a key the server does not have
+	bad := &session{master: r.Bytes(32), keyid: cur.ID, c2s: s.c2s, s2c: s.s2c, algo: 15}
+	bad.pool = append(bad.pool, bad.freshCookie(r))
+	bq := lsnRequest(r, bad)
+	l.srvCase("nt,wrongkey,cookie", []*honest{q}, bq.b, s)
+	// a well-formed request whose cookie names a key id the server does not have
+	// (sealed under the current key): provider.Get fails, no reply
+	ghost := &session{master: cur.Value, keyid: cur.ID + 7, c2s: r.Bytes(32), s2c: r.Bytes(32), algo: 15}
+	ghost.pool = append(ghost.pool, ghost.freshCookie(r))
+	gq := lsnRequest(r, ghost)
+	l.srvCase("nt,wrongkey,keyid", []*honest{q}, gq.b, ghost)
+	// a request sealed under the S2C key of its own cookie (direction swapped)
+	sw := &session{master: cur.Value, keyid: cur.ID, c2s: s.s2c, s2c: s.c2s, algo: 15, pool: s.pool}
+	wq := lsnRequest(r, sw)
+	l.srvCase("nt,wrongdir", []*honest{q}, wq.b, s)
+	// a response handed to the server
+	p := s.response(r, q.uid, 1)
+	l.srvCase("nt,history,reflect", []*honest{q, p}, p.b, s)
+}
+
 func replayExtra(c [3]string) {
-	if c[0] != "srv.ip" {
+	if c[0] != "srv.ip" && c[0] != "srv.scion" {
 		return
 	}
-	// the listener has its own fresh server key: a recorded datagram cannot be
-	// replayed byte for byte; re-run the generator for this kind instead
-	if theLsn == nil {
+	// the listeners have their own fresh server key: a recorded datagram cannot be
+	// replayed byte for byte; re-run the generator for these kinds instead
+	if theLsns == nil {
 		extraCases(lib.NewRng(1), false)
 	}
 }
